@@ -89,6 +89,8 @@ type World struct {
 	HandlerErrs []string
 	// Panics lists panics caught while the follower entry points ran (Deliver)
 	Panics []string
+	// SharedNode: the node belongs to a Base shared by many forks (fork.go); Close leaves it open
+	SharedNode bool
 }
 
 func shortStack() string {
@@ -255,7 +257,9 @@ func (w *World) Close() {
 	if w.I != nil && w.I.Raw != nil {
 		w.I.CloseRaw()
 	}
-	w.N.Close()
+	if !w.SharedNode {
+		w.N.Close()
+	}
 }
 
 // Deliver hands the oldest queued notification to the handler entry point, exactly what
